@@ -12,7 +12,7 @@ RULE = ("random images of size 1..5 x 1..5 as sources of fill_rect / fill / mask
         "mostly with blend mode Src so that fully covered pixels show the shader's value itself; every pixel after every op is "
         "compared with the model, whose shader is the statement (nearest = texel (floor x, floor y) of the 16.16 image-space "
         "position of the pixel centre, bilinear = 4-bit weighted interpolation about (x-0.5, y-0.5), Pad clamps, Repeat "
-        "wraps also for negative coordinates, result scaled by alpha). A differing pixel inside the drawn region that no "
+        "wraps also for negative coordinates, result scaled by alpha); images up to 300 texels long, sampled up to 3000 texels from their origin, and near-translation transforms on surfaces 700-1030 px long. A differing pixel inside the drawn region that no "
         "coverage explains is a failing input; non-trivial = image drawn under a non-identity combined transform")
 
 
@@ -29,8 +29,29 @@ def nontrivial(sr, i):
 ASSUME = ["image coordinates within the 16.16 range", "the float-to-fixed conversion of the matrix is emulated bit-exactly (Flocq)"]
 
 
+def far_from_origin(ctx, base):
+    """Image sources whose transform is within a thousandth of a pure translation (or of the identity), sampled hundreds of
+    pixels from the origin on long thin surfaces: an error of 1e-3 per pixel in the matrix is a whole texel there"""
+    rng = ctx.rng
+    n = 40 if ctx.tier == "quick" else 400
+    out = []
+    for j in range(n):
+        W, H = rng.choice([(1030, 1), (1, 1030), (700, 2), (2, 700)])
+        iw, ih = rng.choice([(3, 1), (4, 2), (1, 3), (5, 5), (2, 2)])
+        img = "%d %d %s" % (iw, ih, " ".join(gen.hexpx(0xff000000 | (((37 * k + 11) % 256) << 16) | (((91 * k) % 256) << 8) | ((53 * k + 7) % 256)) for k in range(iw * ih)))
+        e = rng.choice([8e-4, -8e-4, 5e-4, 9e-4, -3e-4, 0.0])
+        f = rng.choice([0.0, 0.0, 9e-4, -7e-4])
+        tx, ty = float(rng.randrange(-3, 4)), float(rng.randrange(-3, 4))
+        t = rng.choice([(1.0 + e, 0.0, f, 1.0, tx, ty), (1.0, f, 0.0, 1.0 + e, tx, ty), (1.0 + e, 0.0, 0.0, 1.0 + e, tx, ty)])
+        src = "image %s %s %s %s" % (img, rng.choice(["repeat", "pad"]), rng.choice(["nearest", "nearest", "bilinear"]), scene.xf_tokens(t))
+        a = FB(rng.choice([1.0, 1.0, 0.5]))
+        op = "fillrect %d %d %d %d %s 1 %d 1" % (FB(0.0), FB(0.0), FB(float(W)), FB(float(H)), src, a)
+        out.append("scene %d %d %d I %s ; %s" % (base + j, W, H, " ".join(["00000000"] * (W * H)), op))
+    return out
+
+
 def run(ctx):
-    return _scene.run_property(ctx, CFG, 2000, 30000, RULE, concrete, ASSUME, nontrivial=nontrivial)
+    return _scene.run_property(ctx, CFG, 2000, 30000, RULE, concrete, ASSUME, nontrivial=nontrivial, extra_lines=far_from_origin)
 
 
 def replay(ctx, path):
